@@ -58,7 +58,7 @@ ASSUMPTIONS = [
 RULE = (
     "matrix: random frames (1-6 rows quick, up to 40 thorough; 1-3 categorical columns with 1-4 levels incl. unused "
     "levels, object or Categorical dtype; 1-3 numeric columns over small integers/dyadics), formulas of 1-5 terms over "
-    "names, C(x[, contr.*]), I(), {}, a two-column transform, numeric literal scalings, interactions up to degree 3, "
+    "names, C(x[, contr.*]), I(), {}, a two-column transform, 0-3 numeric literal scalings per term (distinct values, any position), interactions up to degree 3, "
     "intercept on/off; x ensure_full_rank x output in pandas/numpy/sparse x cluster_by x materializer pandas/narwhals. "
     "columns: 1-4 factor dicts with 1-3 entries. simplify: up to 7 scoped terms over 4 factors. "
     "non-trivial = matrix case with an interaction term; distinct by canonical JSON"
@@ -212,6 +212,9 @@ def gen_atom(rng, data, used):
     return src.format(v=v, w=w)
 
 
+LITERALS = ["2", "3", "0.5", "2.5", "4", "5", "0.0"]
+
+
 def gen_formula(rng, data):
     nterms = rng.randint(1, 5)
     terms = []
@@ -226,8 +229,11 @@ def gen_formula(rng, data):
         if frozenset(atoms) in seen:  # the parser rejects a repeated term with a different scaling
             continue
         seen.add(frozenset(atoms))
-        if rng.random() < 0.25:
-            atoms.insert(rng.randrange(len(atoms) + 1), rng.choice(["2", "3", "0.5", "2.5", "4", "0.0"]))
+        # 0, 1, 2 or 3 numeric literal factors with distinct values, each at a random position among the
+        # factors: the term's literal scale is the product of ALL of them, under both rank settings
+        nlit = rng.choice([0, 0, 0, 1, 1, 2, 2, 3])
+        for lit in rng.sample(LITERALS, nlit):
+            atoms.insert(rng.randrange(len(atoms) + 1), lit)
         terms.append(":".join(atoms))
     icpt = rng.choice(["", "", "0 + ", "1 + ", "-1 + "])
     return icpt + " + ".join(terms)
@@ -302,9 +308,16 @@ def cases(rng, tier):
         yield gen_badname_case(rng)
 
 
+def _max_literals(formula):
+    best = 0
+    for t in formula.split(" + "):
+        best = max(best, sum(1 for a in t.split(":") if a in LITERALS))
+    return best
+
+
 def describe(c):
     if c["kind"] == "matrix":
-        return f"matrix,{c['mat']},{c['output']},efr={int(c['efr'])},terms={c['formula'].count('+') + 1}"
+        return f"matrix,{c['mat']},{c['output']},efr={int(c['efr'])},maxlit={_max_literals(c['formula'])}"
     return c["kind"]
 
 
@@ -350,7 +363,7 @@ def _enc_json(m, ef, spec, r):
 
 def as_dict(c):
     """does `_combine_columns` of this materializer/output go through a {name: column} dict?
-    (pandas materializer: never — since fix 6360990 "pandas output keeps columns that share a label" the frame is
+    (pandas materializer: never - since the fix "pandas output keeps columns that share a label" the frame is
     assembled by position; narwhals: `nw.from_dict` for everything but sparse)"""
     return c["mat"] == "narwhals" and c["output"] != "sparse"
 
